@@ -60,8 +60,8 @@ CHECKS = {
         note='Depth is computed by the harness from the derivation brackets; lines inside multi-line tokens are never line starts; comment lines are not judged here (C13).'),
     'C09': dict(
         category='model_checking', design_ref='5 (C09)',
-        technique='trace validation: mappings returned by sourcemap.write for synthetic fragment-kind sequences (exhaustive to length n) and for real printer streams are decoded by the TLA+ decoder SourceMapV3.tla and every explicitly positioned fragment is looked up at its generated position (MapTrace.tla, TLC batches)',
-        text='For every sequence up to length n over 18 fragment kinds (positioned, renamed shorter/longer, inferred, unmapped, newline variants, multi-line tokens with LF and CR, source changes, NotImplemented source) x normalize x first-source variant, and for the fragment streams of the pretty / minify / obfuscating printers on TLC-derived programs (one and two sources): decoding the returned mappings with a decoder written from the Source Map V3 format must map the generated position of each explicitly positioned fragment to its source, line, column (by interpolation only when normalising) and original name; indices in range, generated columns non-decreasing, number of mapping lines = number of text lines; the VLQ string decodes to the raw tuples.',
+        technique='TLA+ model of the writer (MapWriter.tla: Bookkeeper registers, Names allocators, per-line loop, normalize_mapping_line) checked by TLC against the format semantics (SourceMapV3.tla) on every fragment-kind stream up to length n; every TLC state is replayed into the real sourcemap.write (result must equal the model, drift reported); trace validation: mappings returned for those streams and for real printer streams are decoded by the TLA+ decoder SourceMapV3.tla and every explicitly positioned fragment is looked up at its generated position (MapTrace.tla, TLC batches)',
+        text='TLC checks on the modelled writer, and MapTrace on the real one, that for every sequence up to length n (plus tlc -simulate walks to length 8) over 18 fragment kinds (positioned, renamed shorter/longer, inferred, unmapped, newline variants, multi-line tokens with LF and CR, source changes, NotImplemented source) x normalize x first-source variant, and for the fragment streams of the pretty / minify / obfuscating printers on TLC-derived programs (one and two sources): decoding the returned mappings with a decoder written from the Source Map V3 format must map the generated position of each explicitly positioned fragment to its source, line, column (by interpolation only when normalising) and original name; indices in range, generated columns non-decreasing, number of mapping lines = number of text lines; the VLQ string decodes to the raw tuples.',
         note='Trusted: generated positions computed by the harness from the written text; streams that split a CR LF pair over two fragments are excluded as not well-formed; an empty-text fragment is not taken to say anything about the current source (write() skips it - noted in DESIGN).'),
     'C18': dict(
         category='fault_enumeration', design_ref='5 (C18)',
